@@ -7,6 +7,7 @@
 
 mod asm;
 mod dbg;
+mod edit;
 mod util;
 mod vm;
 
@@ -37,6 +38,7 @@ fn main() {
             "C03" => vm::run_c03(&nums),
             "ASM" => asm::run_asm(&nums),
             "DBG" => dbg::run_dbg(&nums),
+            "C20" => edit::run_c20(&nums),
             other => panic!("unknown case kind {other}"),
         };
         writeln!(output, "# {kind}").unwrap();
